@@ -82,8 +82,22 @@ def outcome_name(e):
     return type(e).__name__
 
 
+HOOK = None     # c09_events.Hook installed by the harness (observation only)
+SCN = "doc"
+
+
 def run_reader(fmt, data, failsafe, into=None, **kw):
     """-> ('ok', store) | ('exc', exception)"""
+    if HOOK is not None:
+        HOOK.begin(failsafe, SCN)
+    try:
+        return _run_reader(fmt, data, failsafe, into, **kw)
+    finally:
+        if HOOK is not None:
+            HOOK.end()
+
+
+def _run_reader(fmt, data, failsafe, into=None, **kw):
     try:
         if fmt == "json":
             f = io.StringIO(data) if isinstance(data, str) else io.BytesIO(data)
